@@ -42,6 +42,7 @@ mod ps;
 mod trav;
 mod varc;
 mod vars;
+mod stackm;
 mod glyfm;
 mod varsm;
 mod layoutm;
@@ -93,6 +94,7 @@ pub const GROUPS: &[(&str, fn(&mut Ctx))] = &[
     ("bitmap.model", bitmapm::run),
     ("text.model", textm::run),
     ("aats.model", aatsm::run),
+    ("ps.stack.model", stackm::run),
 ];
 
 /// plumbing self-test groups (only with `C01_HAND_SELFTEST=1`): a call that never returns and a call
